@@ -171,6 +171,7 @@ var failingSources = []string{
 var (
 	treeMu    sync.Mutex
 	treeCache = map[int]any{}
+	reuseIdx  []int
 )
 
 func checkC10(c HistCase) Verdict {
@@ -189,6 +190,20 @@ func checkC10(c HistCase) Verdict {
 	dst := filepath.Join(asm.TmpDir(), "c10-out.bin")
 	for step, a := range c.Actions {
 		i := a.Prog % len(pool)
+		if a.Kind == "reuse" {
+			// re-executing a parse tree only bites on the second use of the same tree: half of the "reuse" actions draw
+			// from the hand-written and twin programs only, so that repeats are frequent
+			if len(reuseIdx) == 0 {
+				for j, d := range poolDesc {
+					if strings.HasPrefix(d, "zoo") || strings.HasPrefix(d, "twin") || strings.HasPrefix(d, "collide") {
+						reuseIdx = append(reuseIdx, j)
+					}
+				}
+			}
+			if len(reuseIdx) > 0 && a.Prog%2 == 0 {
+				i = reuseIdx[(a.Prog/2)%len(reuseIdx)]
+			}
+		}
 		src := pool[i]
 		want, _ := asm.FreshProcessBytes(src)
 		var got []byte
